@@ -101,6 +101,12 @@ func plan(tier string, seed int64) []driver.Case {
 			cases = append(cases, driver.Case{ID: fmt.Sprintf("held/ho/%s/take1", name), P: map[string]string{"kind": "held", "ho": name, "cut": "take1"}})
 		}
 	}
+	// the periodic sources without anything that ends them: only the cut stops them
+	for _, name := range rawPeriodic {
+		for _, cut := range []string{"ctx", "ctx-late", "unsub1"} {
+			cases = append(cases, driver.Case{ID: fmt.Sprintf("creation-raw/%s/%s", name, cut), P: map[string]string{"kind": "creation", "raw": name, "cut": cut}})
+		}
+	}
 	ch := catalog.Chainable()
 	for i := 0; i < nChains; i++ {
 		n := 2 + rng.Intn(2)
@@ -661,9 +667,36 @@ func cleanup(sub ro.Subscription, srcs []*src.Source) {
 	}
 }
 
+var rawPeriodic = []string{"Interval(1ms)", "IntervalWithInitial(1ms,1ms)", "IntervalWithInitial(0,1ms)", "IntervalWithInitial(3ms,1ms)"}
+
+func rawEntry(name string) *catalog.Entry {
+	e := &catalog.Entry{Name: name, Family: strings.SplitN(name, "(", 2)[0], Flags: catalog.Creation | catalog.TimeDriven | catalog.Async}
+	e.Build = func(*catalog.B) catalog.Pipeline {
+		switch name {
+		case "Interval(1ms)":
+			return catalog.P(ro.Interval(time.Millisecond))
+		case "IntervalWithInitial(0,1ms)":
+			return catalog.P(ro.IntervalWithInitial(0, time.Millisecond))
+		case "IntervalWithInitial(3ms,1ms)":
+			return catalog.P(ro.IntervalWithInitial(3*time.Millisecond, time.Millisecond))
+		}
+		return catalog.P(ro.IntervalWithInitial(time.Millisecond, time.Millisecond))
+	}
+	return e
+}
+
 func runCreation(c driver.Case) driver.Result {
-	e := catalog.Get(c.Get("entry"))
+	var e *catalog.Entry
+	if raw := c.Get("raw"); raw != "" {
+		e = rawEntry(raw)
+	} else {
+		e = catalog.Get(c.Get("entry"))
+	}
 	cut := c.Get("cut")
+	if cut == "ctx-late" {
+		// the cancellation comes once the source is in its steady state (several ticks delivered)
+		defer func(t0 time.Time) {}(time.Now())
+	}
 	res := driver.Result{Verdict: driver.Held}
 	before := map[string]bool{}
 	for _, g := range quiesce.Dump() {
@@ -681,6 +714,13 @@ func runCreation(c driver.Case) driver.Result {
 		sub = p.Subscribe(ctx, r, false)
 	}()
 	time.Sleep(1500 * time.Microsecond)
+	if cut == "ctx-late" {
+		deadline := time.Now().Add(2 * time.Second)
+		for r.Len() < 3 && time.Now().Before(deadline) {
+			time.Sleep(300 * time.Microsecond)
+		}
+		cut = "ctx"
+	}
 	switch cut {
 	case "ctx":
 		cancel()
